@@ -293,6 +293,7 @@ def _system(case, out):
 
         _decoys.immune_system(case["decoy"], ImmuneSystem, "a", follow)
         out.label("decoy")
+        _decoys.note(out)
     trained = False
     flag = False
     streak = 0
@@ -350,8 +351,8 @@ def _system(case, out):
                 raw = []
                 orig_inspect = tcell.inspect
 
-                def spy(peptide, _orig=orig_inspect, _raw=raw):
-                    resp = _orig(peptide)
+                def spy(*a_, _orig=orig_inspect, _raw=raw, **kw_):
+                    resp = _orig(*a_, **kw_)
                     _raw.append(resp.action.name)
                     return resp
 
